@@ -2,6 +2,7 @@
 package main
 
 import (
+	"errors"
 	"fmt"
 	"math/rand"
 	"strings"
@@ -63,6 +64,15 @@ func plan(tier string, seed int64) []driver.Case {
 			for _, b := range alphabet {
 				cases = append(cases, driver.Case{ID: fmt.Sprintf("seq/%s/%s-%s", c, a, b), P: map[string]string{"kind": "seq", "subject": string(c.kind), "n": fmt.Sprint(c.n), "prefix": a + " " + b, "len": fmt.Sprint(maxLen)}})
 			}
+		}
+	}
+	// deterministic schedules: a broadcast is held between two subscribers while both unsubscribe
+	for _, k := range []config{{sm.Publish, 0}, {sm.Behavior, 0}, {sm.Replay, 2}, {sm.Async, 0}} {
+		for _, what := range []string{"next", "complete", "error"} {
+			if k.kind == sm.Async && what == "next" {
+				continue // an async subject broadcasts nothing before it completes
+			}
+			cases = append(cases, driver.Case{ID: fmt.Sprintf("park/%s/%s", k, what), P: map[string]string{"kind": "park", "subject": string(k.kind), "n": fmt.Sprint(k.n), "what": what}})
 		}
 	}
 	rng := rand.New(rand.NewSource(seed))
@@ -244,7 +254,70 @@ type opOut struct {
 	N     int
 }
 
-func model(cfg config, dropBacklog bool) porcupine.Model {
+// tolerance lists, for one subscriber, the deliveries that the known "deliver after releasing the
+// subject's mutex" defect may lose: the subject picks the current subscriber under its mutex and
+// calls it after unlocking; an Unsubscribe of that subscriber that overlaps the publishing call in
+// real time can close the subscriber in between, and the notification - although it took effect on
+// the subject - reaches nobody.
+type tolerance struct {
+	vals     map[string]bool // values of Next calls that overlap an Unsubscribe of this subscriber
+	terminal bool            // an Error/Complete call overlaps an Unsubscribe of this subscriber
+	anyVal   bool            // async subject: the final value is delivered by the Complete call itself
+}
+
+// tolerances derives them from the real-time intervals of the history.
+func tolerances(cfg config, h []porcupine.Operation, withTerminal bool) map[int]tolerance {
+	out := map[int]tolerance{}
+	for _, u := range h {
+		ui := u.Input.(opIn)
+		if ui.Op != "U" {
+			continue
+		}
+		t := out[ui.Sub]
+		if t.vals == nil {
+			t.vals = map[string]bool{}
+		}
+		for _, a := range h {
+			ai := a.Input.(opIn)
+			if !(a.Call < u.Return && u.Call < a.Return) {
+				continue
+			}
+			switch ai.Op {
+			case "N":
+				t.vals[fmt.Sprint(ai.V)] = true
+			case "E", "C":
+				if withTerminal {
+					t.terminal = true
+					t.anyVal = cfg.kind == sm.Async
+				}
+			}
+		}
+		out[ui.Sub] = t
+	}
+	return out
+}
+
+// matches: got equals want with some tolerated deliveries removed.
+func (t tolerance) matches(want []string, got string) bool {
+	g := strings.Fields(got)
+	i := 0
+	for _, w := range want {
+		if i < len(g) && g[i] == w {
+			i++
+			continue
+		}
+		isTerm := w == "C" || strings.HasPrefix(w, "E")
+		if (isTerm && t.terminal) || (!isTerm && (t.vals[w] || t.anyVal)) {
+			continue // lost to the racing Unsubscribe
+		}
+		return false
+	}
+	return i == len(g)
+}
+
+func model(cfg config, dropBacklog bool) porcupine.Model { return modelTol(cfg, dropBacklog, nil) }
+
+func modelTol(cfg config, dropBacklog bool, tol map[int]tolerance) porcupine.Model {
 	return porcupine.Model{
 		Init: func() any { m := sm.New(cfg.kind, cfg.n, 0); m.DropBacklog = dropBacklog; return m },
 		Step: func(state, input, output any) (bool, any) {
@@ -268,7 +341,13 @@ func model(cfg config, dropBacklog bool) porcupine.Model {
 				if !ok {
 					return out.Trace == "", s
 				}
-				return strings.Join(sub.Trace, " ") == out.Trace, s
+				if strings.Join(sub.Trace, " ") == out.Trace {
+					return true, s
+				}
+				if t, ok := tol[in.Sub]; ok {
+					return t.matches(sub.Trace, out.Trace), s
+				}
+				return false, s
 			}
 			return true, s
 		},
@@ -408,18 +487,35 @@ func runConc(c driver.Case) driver.Result {
 		history = append(history, porcupine.Operation{ClientId: clients, Input: opIn{Op: "R", Sub: id}, Output: opOut{Trace: tr}, Call: tEnd, Return: tEnd + 1})
 		tEnd += 2
 	}
+	res.Events = events
+	return judge(cfg, history, clients, fmt.Sprintf("%s|%v", cfg, plans), res)
+}
+
+// judge decides a recorded history: linearizable w.r.t. the sequential definition, or - if not -
+// attributed to one of the recorded defects by an executable relaxation of the definition.
+func judge(cfg config, history []porcupine.Operation, clients int, sig string, res driver.Result) driver.Result {
 	result := porcupine.CheckOperationsTimeout(model(cfg, false), history, 10*time.Second)
 	class := ""
-	if result == porcupine.Illegal && cfg.kind == sm.Unicast {
-		if porcupine.CheckOperationsTimeout(model(cfg, true), history, 10*time.Second) == porcupine.Ok {
+	if result == porcupine.Illegal {
+		// attribution to the recorded defects, each by an executable relaxation of the definition
+		lin := func(drop bool, tol map[int]tolerance) bool {
+			return porcupine.CheckOperationsTimeout(modelTol(cfg, drop, tol), history, 10*time.Second) == porcupine.Ok
+		}
+		uni := cfg.kind == sm.Unicast
+		switch {
+		case uni && lin(true, nil):
 			class = "/explained-by-backlog-dropped-at-termination"
-		} else if nextRacesUnsubscribe(history) {
+		case lin(false, tolerances(cfg, history, false)):
 			class = "/next-racing-unsubscribe"
+		case lin(false, tolerances(cfg, history, true)):
+			class = "/terminal-racing-unsubscribe"
+		case uni && lin(true, tolerances(cfg, history, true)):
+			class = "/backlog-dropped-and-notification-racing-unsubscribe"
 		}
 	}
-	res.Events = events + int64(len(history))
+	res.Events += int64(len(history))
 	res.Nontrivial = len(history) > clients
-	res.Sig = fmt.Sprintf("%s|%v", cfg, plans)
+	res.Sig = sig
 	res.Extra = map[string]int64{"history_ops": int64(len(history))}
 	var desc []string
 	for _, op := range history {
@@ -440,24 +536,91 @@ func runConc(c driver.Case) driver.Result {
 
 // nextRacesUnsubscribe: some Next overlaps an Unsubscribe in real time (precondition of the
 // known "value handed to a subscriber that is leaving is lost" defect of the unicast subject).
-func nextRacesUnsubscribe(h []porcupine.Operation) bool {
-	for _, a := range h {
-		if a.Input.(opIn).Op != "N" {
-			continue
-		}
-		for _, b := range h {
-			if b.Input.(opIn).Op == "U" && a.Call < b.Return && b.Call < a.Return {
-				return true
-			}
+// runPark: two subscribers; a broadcast (Next, Complete or Error) is held after it has reached the
+// first of them; that one and then the other unsubscribe; the broadcast goes on. The history - with
+// the real call/return times - is judged like the random ones. Under the sequential definition the
+// second subscriber was subscribed when the notification was published (the first one got it and
+// unsubscribed before the second did), so it must have it too.
+func runPark(c driver.Case) driver.Result {
+	cfg := config{sm.Kind(c.Get("subject")), c.Int("n")}
+	what := c.Get("what")
+	res := driver.Result{Verdict: driver.Held}
+	subj := newSubject(cfg)
+	var history []porcupine.Operation
+	op := func(client int, in opIn, f func()) {
+		t0 := rec.Mono()
+		f()
+		history = append(history, porcupine.Operation{ClientId: client, Input: in, Output: opOut{}, Call: t0, Return: rec.Mono()})
+	}
+	recs := []*rec.Rec{rec.New("s0"), rec.New("s1")}
+	subs := make([]ro.Subscription, 2)
+	if cfg.kind == sm.Async {
+		op(0, opIn{Op: "N", V: 5}, func() { subj.Next(5) })
+	}
+	for i := range recs {
+		i := i
+		op(0, opIn{Op: "S", Sub: i}, func() { subs[i] = subj.Subscribe(rec.Raw[int](recs[i])) })
+	}
+	point, in := "subscriber.next.enter", opIn{Op: "N", V: 7}
+	publish := func() { subj.Next(7) }
+	switch what {
+	case "complete":
+		point, in, publish = "subscriber.terminal.unlocked", opIn{Op: "C"}, func() { subj.Complete() }
+	case "error":
+		point, in, publish = "subscriber.terminal.unlocked", opIn{Op: "E"}, func() { subj.Error(errors.New("boom")) }
+	}
+	nth := 2 // Next: the second subscriber is about to be called
+	if what != "next" {
+		nth = 1 // terminal: the first subscriber has just been served
+		if cfg.kind == sm.Async {
+			point = "subscriber.terminal.unlocked"
 		}
 	}
-	return false
+	arrived, release := sched.Park(point, nth)
+	defer sched.ClearParks()
+	var pubOp porcupine.Operation
+	done := make(chan struct{})
+	go func() {
+		defer close(done)
+		t0 := rec.Mono()
+		publish()
+		pubOp = porcupine.Operation{ClientId: 1, Input: in, Output: opOut{}, Call: t0, Return: rec.Mono()}
+	}()
+	select {
+	case <-arrived:
+	case <-done:
+		// the hook point was not reached (nothing broadcast): nothing to hold
+	case <-time.After(10 * time.Second):
+		return driver.Result{Verdict: driver.Inconclusive, Key: "park-not-reached", Dirty: true}
+	}
+	// who has been served? that one unsubscribes first
+	first := 0
+	if recs[1].Len() > recs[0].Len() {
+		first = 1
+	}
+	op(2, opIn{Op: "U", Sub: first}, func() { subs[first].Unsubscribe() })
+	op(2, opIn{Op: "U", Sub: 1 - first}, func() { subs[1-first].Unsubscribe() })
+	release()
+	<-done
+	history = append(history, pubOp)
+	tEnd := rec.Mono() + 1
+	var events int64
+	for id, r := range recs {
+		events += int64(r.Len())
+		history = append(history, porcupine.Operation{ClientId: 3, Input: opIn{Op: "R", Sub: id}, Output: opOut{Trace: strings.Join(renderTrace(r), " ")}, Call: tEnd, Return: tEnd + 1})
+		tEnd += 2
+	}
+	res.Events = events
+	return judge(cfg, history, 3, "park/"+cfg.String()+"/"+what, res)
 }
 
 func runCase(c driver.Case) driver.Result {
 	rec.ResetHooks()
 	if c.Get("kind") == "conc" {
 		return runConc(c)
+	}
+	if c.Get("kind") == "park" {
+		return runPark(c)
 	}
 	return runSeq(c)
 }
